@@ -172,9 +172,20 @@ class Text(Part):
         enc = case["encoding"]
         env = values.env(case["bindings"], enc or "utf-8")
         out = []
-        for p in case["parts"]:
+        # line endings of the SOURCE are normalised (a CR LF pair may be
+        # written across two literal pieces); inserted values are not
+        norm = not assemble(case["parts"])[0].startswith("<?xml")
+        parts = case["parts"]
+        for i, p in enumerate(parts):
             if p[0] == "lit":
-                out.append(lit_expected(p[1]))
+                t = lit_expected(p[1])
+                if norm:
+                    nxt = parts[i + 1] if i + 1 < len(parts) else None
+                    if t.endswith("\r") and nxt is not None and \
+                            nxt[0] == "lit" and nxt[1].startswith("\n"):
+                        t = t[:-1]
+                    t = t.replace("\r\n", "\n").replace("\r", "\n")
+                out.append(t)
             else:
                 v = pyexprs.evaluate(p[1]["src"], env)
                 if isinstance(v, bytes):
@@ -182,8 +193,6 @@ class Text(Part):
                 else:
                     out.append(model_text(v))
         src, exp = assemble(case["parts"], out)
-        if not src.startswith("<?xml"):
-            exp = exp.replace("\r\n", "\n").replace("\r", "\n")
         return exp
 
     def nontrivial(self, case):
